@@ -19,7 +19,7 @@ TPM2_INC = ["-DHAVE_CONFIG_H", "-I.", "-I..", "-include", "tpm_library_conf.h", 
             "-DUSE_OPENSSL_FUNCTIONS_RSA=1", "-DUSE_OPENSSL_FUNCTIONS_SSKDF=1", "-DUSE_EC_POINT_GET_AFFINE_COORDINATES_API=1"]
 TPM12_INC = ["-DHAVE_CONFIG_H", "-I.", "-I..", "-include", "tpm_library_conf.h", "-I../include/libtpms", "-I../include",
              "-DTPM_V12", "-DTPM_PCCLIENT", "-DTPM_POSIX", "-DTPM_LIBTPMS_CALLBACKS", "-DTPM_NV_DISK", "-I", "./tpm12"]
-SAN = ["-g", "-O1", "-fsanitize=address,undefined", "-fno-sanitize=alignment", "-fno-sanitize-recover=undefined", "-fno-omit-frame-pointer"]
+SAN = ["-g", "-O1", "-fsanitize=address,undefined", "-fno-sanitize=alignment,bounds", "-fno-sanitize-recover=undefined", "-fno-omit-frame-pointer"]
 
 
 class CheckError(Exception):
